@@ -27,6 +27,8 @@ OS_FUNCS_PATH1 = ['listdir', 'mkdir', 'rmdir', 'remove', 'unlink', 'stat', 'lsta
                   'truncate', 'statvfs', 'access', 'makedirs', 'removedirs', 'chmod', 'utime', 'readlink']
 OS_FUNCS_PATH2 = ['rename', 'replace', 'link', 'symlink']
 
+MUTATING = ('mkdir', 'rmdir', 'remove', 'unlink', 'truncate', 'makedirs', 'removedirs', 'chmod', 'utime', 'chdir')
+
 AUDIT_EVENTS = {
     'open': 0, 'os.listdir': 0, 'os.scandir': 0, 'os.mkdir': 0, 'os.rmdir': 0, 'os.remove': 0,
     'os.rename': (0, 1), 'os.truncate': 0, 'os.chdir': 0, 'os.chmod': 0, 'os.link': (0, 1),
@@ -156,9 +158,13 @@ class FaultyFile(object):
 class SimFS(object):
     """Per-run file system monitor and fault plan. Attach as world.fs."""
 
-    def __init__(self, world, roots):
+    def __init__(self, world, roots, guard_root=None):
         self.w = world
         self.roots = [os.path.realpath(r) for r in roots]
+        # safety net: mutating host calls that resolve outside guard_root are refused with EACCES
+        # (after being recorded), so that an engine that escapes its mounts cannot touch real files
+        self.guard_root = os.path.realpath(guard_root) if guard_root else None
+        self.refused = 0
         self.counts = collections.Counter()
         self.plan = []            # armed faults
         self.calls = []           # (kind, resolved path) while monitoring
@@ -217,6 +223,20 @@ class SimFS(object):
                 raise OSError(f['errno'], os.strerror(f['errno']), path)
         return None
 
+    def refuse(self, path):
+        """True if a mutating call on path must be refused (outside the guard root)."""
+        if self.guard_root is None or path is None:
+            return False
+        try:
+            rp = _realpath(path)
+        except Exception:
+            return False
+        if rp == self.guard_root or rp.startswith(self.guard_root + os.sep) or rp == os.devnull:
+            return False
+        self.refused += 1
+        self.w.stats['guard_refused_outside_scratch'] += 1
+        return True
+
     def note(self, kind, path):
         if self.monitor:
             try:
@@ -233,6 +253,8 @@ def _wrap_open(real_open):
             return real_open(file, mode, *a, **kw)
         p = _pathstr(file)
         fs.note('open:' + str(mode), p)
+        if isinstance(mode, str) and set(mode) & set('wax+') and fs.refuse(p):
+            raise PermissionError(errno.EACCES, 'refused by verification sandbox', p)
         if p is None or not fs.inside(p):
             return real_open(file, mode, *a, **kw)
         fs.fault_point('open', p)
@@ -251,6 +273,8 @@ def _wrap1(name, real):
             fs.note(name, p)
         elif fs.monitor:
             fs.note(name, p)
+        if name in MUTATING and fs.refuse(p):
+            raise PermissionError(errno.EACCES, 'refused by verification sandbox', p)
         if p is not None and fs.inside(p):
             fs.fault_point(name, p)
         return real(path, *a, **kw)
@@ -266,6 +290,8 @@ def _wrap2(name, real):
         ps, pd = _pathstr(src), _pathstr(dst)
         fs.note(name, ps)
         fs.note(name, pd)
+        if fs.refuse(ps) or fs.refuse(pd):
+            raise PermissionError(errno.EACCES, 'refused by verification sandbox', ps)
         if (ps is not None and fs.inside(ps)) or (pd is not None and fs.inside(pd)):
             fs.fault_point(name, ps)
         return real(src, dst, *a, **kw)
